@@ -216,6 +216,19 @@ def mat_cases(kernels, seed, tier, consts=None):
             out.append(('mat', k, s, m))
             if i % 4 == 0 and ('spmv' in k or '4x12' in k):
                 out.append(('mat', k, s, m, ['ca', 'c1', 'c2'][(i // 4) % 3]))      # in place: the output register is the first / second / third state register
+        # a single product equal to p-1 exactly (and to p, 2^64-1) in each of the twelve positions, everything else zero: the
+        # first / second operand of every adder of the chain meets the word 0xFFFFFFFF00000000 alone
+        if not eight:
+            for j in range(12):
+                for form in range(3):
+                    w = [P - 1, P, M - 1][form]
+                    s = [0] * ns; m = [0] * nm
+                    for h in range(ns // 12):
+                        pos = (4 * (j // 4) + (j % 4)) if ns == 12 else (8 * (j // 4) + 4 * h + (j % 4))
+                        s[pos] = w if (j + form) % 2 == 0 else 1
+                    for row in range(max(1, nm // 12)):
+                        m[12 * row + j] = 1 if (j + form) % 2 == 0 else w
+                    out.append(('mat', k, s, m))
         if k.startswith('dot'):
             # the horizontal sum of the four lane results: unit coefficients in one block (zero elsewhere) pass four state
             # words through as the lane values; the words are chosen so that their integer sum is k*2^64 + t with k = 1..3
